@@ -4,8 +4,9 @@
 (*                                                                         *)
 (* TLC checks MC_FirstFit exhaustively for fragment values from small      *)
 (* sets; this module complements it: for a fixed number N of fragments the *)
-(* widths, whitespace widths, penalty widths and the two line widths are   *)
-(* arbitrary non-negative integers (chosen in Init, unbounded), and        *)
+(* widths, whitespace widths, penalty widths and the width of *every*     *)
+(* line are arbitrary non-negative integers (chosen in Init, unbounded),   *)
+(* and                                                                     *)
 (* Apalache checks over all of them that                                   *)
 (*   - the lines form an ordered partition into non-empty runs (C06) and   *)
 (*   - every break is forced and every non-break fits (C07: greedy).       *)
@@ -24,10 +25,8 @@ VARIABLES
   ws,
   \* @type: Int -> Int;
   pw,
-  \* @type: Int;
-  lw0,
-  \* @type: Int;
-  lw1,
+  \* @type: Int -> Int;
+  lw,
   \* @type: Int;
   i,
   \* @type: Int;
@@ -48,13 +47,15 @@ Idx == 1..N
 Init ==
   /\ w \in [Idx -> Int] /\ ws \in [Idx -> Int] /\ pw \in [Idx -> Int]
   /\ \A k \in Idx : w[k] >= 0 /\ ws[k] >= 0 /\ pw[k] >= 0
-  /\ lw0 \in Int /\ lw1 \in Int /\ lw0 >= 0 /\ lw1 >= 0
+  /\ lw \in [0..N -> Int] /\ \A k \in 0..N : lw[k] >= 0
   /\ i = 1 /\ start = 1 /\ acc = 0 /\ nlines = 0
   /\ cut = [k \in Idx |-> FALSE]
   /\ accAt = [k \in Idx |-> 0]
   /\ lineAt = [k \in Idx |-> 0]
 
-LineW(k) == IF k = 0 THEN lw0 ELSE lw1
+\* line k is measured against lw[k]: an arbitrary width per line, which covers every width list (the k-th listed
+\* width, the last one repeating) at once
+LineW(k) == lw[k]
 
 Step ==
   /\ i <= N
@@ -65,9 +66,9 @@ Step ==
      /\ IF brk THEN start' = i /\ nlines' = nlines + 1 /\ acc' = w[i] + ws[i]
         ELSE acc' = acc + w[i] + ws[i] /\ UNCHANGED <<start, nlines>>
   /\ i' = i + 1
-  /\ UNCHANGED <<w, ws, pw, lw0, lw1>>
+  /\ UNCHANGED <<w, ws, pw, lw>>
 
-Done == i > N /\ UNCHANGED <<w, ws, pw, lw0, lw1, i, start, acc, nlines, cut, accAt, lineAt>>
+Done == i > N /\ UNCHANGED <<w, ws, pw, lw, i, start, acc, nlines, cut, accAt, lineAt>>
 Next == Step \/ Done
 
 \* accumulated width of the fragments of the current line before fragment k, recomputed declaratively
